@@ -29,9 +29,20 @@ from .util import drop_candidates
 HORIZON = 14          # samples inspected of endless readers
 
 
+def fval(c):
+  """ The value of a floating point / complex constant spec ["f", x]. """
+  return complex(*c[1]) if isinstance(c[1], list) else c[1]
+
+
 def close(a, b, scale=1):
   """ Equal; when a float is involved, within 1e-9 of the largest magnitude
   seen so far in the run (exact rational arithmetic: nothing overflows). """
+  if isinstance(a, complex) or isinstance(b, complex):
+    try:
+      return abs(complex(a) - complex(b)) <= 1e-9 * max(
+        1.0, abs(complex(b)), float(scale))
+    except OverflowError:
+      return True
   if not isinstance(a, float) and not isinstance(b, float):
     return a == b
   try:
@@ -46,7 +57,8 @@ def all_close(xs, ys):
     return False
   scale = 1
   for a, b in zip(xs, ys):
-    scale = max(scale, abs(Fraction(b)))
+    scale = max(scale, abs(b) if isinstance(b, complex)
+                else abs(Fraction(b)))
     if not close(a, b, scale):
       return False
   return True
@@ -157,6 +169,10 @@ class C06(Property):
         # a floating point constant, in particular one very close to +-1
         # (single filters only: outputs are then compared with a relative
         # tolerance of 1e-9, the model stays exact)
+        if W.chance("complex-constant", 1, 4):
+          # a complex constant: stored as [re, im] (JSON), outputs complex
+          return ["f", W.pick("zconst", [[1, 2], [2, -1], [-1, 2], [0, 1],
+                                         [0.5, -0.5]])]
         return ["f", W.pick("fconst", [1 - 1e-7, 1 + 1e-7, -(1 + 1e-7),
                                        1 + 2.0 ** -40, 0.5, -0.75, 1.25])]
       if W.chance("control-stream", 1, 14):
@@ -528,11 +544,12 @@ class C06(Property):
         import itertools
         return Stream(itertools.repeat(Fraction(c[1]), c[2]))
       if c[0] == "f":
+        v = fval(c)
         if const_as_stream:
           flip[0] += 1
           if flip[0] % 2 == 0:
-            return Stream(c[1])
-        return c[1]
+            return Stream(v)
+        return v
       if c[0] == "k":
         cs = self.ls.ControlStream(Fraction(c[1]))
         if c[3]:
@@ -644,6 +661,9 @@ class C06(Property):
         return src_value(c[1], (n + c[3]) % c[2])
       if c[0] == "k":
         return Fraction(c[1]) * (3 if c[3] else 1)
+      if c[0] == "f":
+        v = fval(c)
+        return v if isinstance(v, complex) else Fraction(v)
       return src_value(c[1], n) if c[0] in ("s", "h") else Fraction(c[1])
     # (a finite constant stream ["r", value, times] has its constant value
     # for as long as it lasts; its length enters the output length)
@@ -844,7 +864,7 @@ class C06(Property):
         seq, is_stream = entry
         if is_stream:
           return seq[n] if n < len(seq) else None
-        return Fraction(seq)
+        return seq if isinstance(seq, complex) else Fraction(seq)
 
       # ---- (0)/(2): coefficient values at every n vs the specification
       for n in range(ncheck):
@@ -989,7 +1009,7 @@ class C06(Property):
           raise _Mismatch("end:too-long", "output %d = %r although a reader "
                           "ended after %d items" % (n, y, out_len))
         if not close(y, ys[n], max([1] + [abs(v) for v in ys[:n + 1]])
-                     if isinstance(y, float) else 1):
+                     if isinstance(y, (float, complex)) else 1):
           raise _Mismatch("system", "y[%d] = %r, the difference equation on "
                           "the filter's own coefficients gives %r"
                           % (n, y, ys[n]))
